@@ -258,8 +258,11 @@ def trace_inputs(trace, wanted):
         if base in wanted or lhs in wanted:
             v = st.get("value", {})
             data = v.get("data")
+            if v.get("name") == "float" and v.get("binary"):
+                data = "bits:" + v["binary"]          # exact IEEE-754 pattern for floating-point inputs
             if data is None and "elements" in v:
-                data = [el.get("value", {}).get("data") for el in v["elements"]]
+                data = [("bits:" + el["value"]["binary"]) if el.get("value", {}).get("name") == "float" and el["value"].get("binary")
+                        else el.get("value", {}).get("data") for el in v["elements"]]
             if data is None and "members" in v:
                 data = {mm.get("name"): mm.get("value", {}).get("data") for mm in v["members"]}
             # keep the FIRST complete assignment of plain inputs made in main (nondet initialisation); the
